@@ -220,9 +220,9 @@ impl World {
 
     /// Every link to p's inode is private to us (so changing the inode cannot be seen by anyone).
     pub open spec fn private_inode(self, p: PathV) -> bool {
-        self.owned.contains(p) && !self.is_entry(p) && forall|q: PathV|
+        self.owned.contains(p) && !self.in_cache_namespace(p) && forall|q: PathV|
             #[trigger] self.files.contains_key(q) && self.files.contains_key(p) && self.files[q] == self.files[p] ==> self.owned.contains(q)
-                && !self.is_entry(q)
+                && !self.in_cache_namespace(q)
     }
 
     /// `solo`: in this version every contract is stated for the participant running alone between
